@@ -882,6 +882,23 @@ struct ArenaRawScript : ArenaScript {
   void recover(int rec) override { arena.reset(rec == R_HARD ? ResetPolicy::kHard : ResetPolicy::kSoft); }
 };
 
+// an arena that never gets a managed block: only requests above the largest reusable slot (dynamic blocks), as a big
+// ArenaVector makes them
+struct ArenaLargeScript : ArenaScript {
+  Arena arena{1024};
+  void run(Att& A, std::string& out) override {
+    auto reu = [&](size_t n, bool free_it, uint8_t fill) -> Error { size_t got = 0; uint8_t* p = arena.alloc_reusable<uint8_t>(n, Out(got)); if (!p) return Error::kOutOfMemory; if (got < n) { viol("wrong-code-after-ok", "alloc_reusable reports a smaller block than requested"); return Error::kOk; } memset(p, fill, got); if (free_it) arena.free_reusable(p, got); return Error::kOk; };
+    S("alloc_reusable", reu(100000, false, 0x11));
+    S("alloc_reusable", reu(5000, true, 0x22));
+    S("alloc_reusable", reu(40000, false, 0x33));
+    ArenaVector<uint64_t> v;
+    S("reserve", v.reserve_fit(arena, 30000));
+    if (A.reported) return;
+    out = "large:" + std::to_string(size_t(v.capacity()));
+  }
+  void recover(int rec) override { arena.reset(rec == R_HARD ? ResetPolicy::kHard : ResetPolicy::kSoft); }
+};
+
 template<class Sc> static void run_script_workload(const CaseSpec& cs) {
   std::string out1, out2, out3;
   {
@@ -920,6 +937,7 @@ static const Workload kWorkloads[] = {
   {"cpool", [](const CaseSpec& cs) { run_script_workload<CPoolScript>(cs); }, "ConstPool::add of 1..64 byte constants incl. sub-constant registration, fill"},
   {"str", [](const CaseSpec& cs) { run_script_workload<StrScript>(cs); }, "String / StringTmp: assign/append/format/pad growth from embedded to heap"},
   {"arena", [](const CaseSpec& cs) { run_script_workload<ArenaRawScript>(cs); }, "raw Arena: one-shot / reusable / dynamic blocks, soft reset, oversized request walking over kept blocks, dup"},
+  {"arena-large", [](const CaseSpec& cs) { run_script_workload<ArenaLargeScript>(cs); }, "raw Arena that only ever serves requests above the largest reusable slot (dynamic blocks, a big ArenaVector)"},
 };
 static const int kNumWorkloads = sizeof(kWorkloads) / sizeof(kWorkloads[0]);
 static int workload_by_name(const std::string& n) { for (int i = 0; i < kNumWorkloads; i++) if (n == kWorkloads[i].name) return i; return -1; }
